@@ -52,11 +52,14 @@ class Gen:
             return b'[' + r.choice(list(ids)) + b']'
         if k < 0.39:
             # header-like lines of slots that exist nowhere (a log quoting some other test)
-            return r.choice([b'[TestGhost - 7]', b'[TestLogin - 2]', b'[TestA/never - 1]'])
+            # ... also behind the characters a storage-level escape would use (a backslash, a second bracket): a line
+            # that already LOOKS escaped must come back as it went in
+            return r.choice([b'[TestGhost - 7]', b'[TestLogin - 2]', b'[TestA/never - 1]', b'\\[TestGhost - 7]', b'\\\\[TestLogin - 2]',
+                             b'\\[TestParser/empty_input - 2]', b'[[TestGhost - 7]]', b'\\---', b'\\/-/-/-/', b'\\', b'\\[', b'//-/-/-/'])
         if k < 0.42 and ids:
             # lines CONTAINING the header of a slot in play without being equal to it
             i = r.choice(list(ids))
-            return r.choice([b'see also [' + i + b']', b'[' + i + b'] was here', b' [' + i + b']', b'[' + i + b'] ', b'x[' + i + b']y'])
+            return r.choice([b'see also [' + i + b']', b'[' + i + b'] was here', b' [' + i + b']', b'[' + i + b'] ', b'x[' + i + b']y', b'\\[' + i + b']', b'\\\\[' + i + b']'])
         if k < 0.46:
             return bytes(r.choice([0x80, 0xff, 0xfe, 0xc3, 0x28, 0xe2, 0x82, 0x00, 0x1b, 0x7f, 0x41, 0x20]) for _ in range(r.randint(1, 8)))
         if k < 0.50:
